@@ -6,10 +6,11 @@ from vlib import Corr, Search, Failure, cz, clist, cstr
 ID = 'C30'
 LEVEL = 'proof'
 PROPS = ['Props/C30.v', 'Findings/C30.v']
-from py2coq import c30rawtype
-GEN = [('Gen/C30RawType.v', c30rawtype.generate)]
+from py2coq import c30rawtype, c30regex
+GEN = [('Gen/C30RawType.v', c30rawtype.generate), ('Gen/C30Regex.v', c30regex.generate)]
 TRUSTED = [
-    'hand-written executable models Model/C30Scan.v (pony.utils.parse_expr: the three regular expressions as deterministic scanners) and '
+    'hand-written executable models Model/C30Scan.v (pony.utils.parse_expr as deterministic scanner steps; PROVED equal to the match / search results of the three '
+    'regular expressions, which are translated from CPython\'s parse trees of the source patterns on every run, under the backtracking semantics of Model/C30Regex.v) and '
     'Model/C30Adapt.v (core.adapt_sql: scan, $$, five paramstyles, % doubling, the process-wide cache; ormtypes.parse_raw_sql), '
     'tied by correspondence: a line-by-line Python mirror of the model is compared with the real functions (sources captured through an injected '
     '`compile`), and the Coq model with the mirror by vm_compute on every case',
@@ -33,12 +34,12 @@ RULE = ('statements are generated from segment lists (author\'s intent): text pi
 
 STYLES = ['qmark', 'format', 'numeric', 'named', 'pyformat']
 CSTYLE = {'qmark': 'Qmark', 'format': 'Format', 'numeric': 'Numeric', 'named': 'Named', 'pyformat': 'Pyformat'}
-HEADER = ('Require Import PonyV.Base.PyBase PonyV.Model.C06Str PonyV.Model.C06Lex PonyV.Model.C06Params PonyV.Model.C30Scan PonyV.Model.C30Adapt.\n'
+HEADER = ('Require Import PonyV.Base.PyBase PonyV.Model.C06Str PonyV.Model.C06Lex PonyV.Model.C06Params PonyV.Model.C30Scan PonyV.Model.C30Adapt PonyV.Model.C30Regex PonyV.Gen.C30Regex.\n'
           'Open Scope Z_scope.\n')
 E_VALUE, E_INDEX, E_TYPE = 1, 2, 3
 
 
-def run_bools(ctx, exprs, header=HEADER, chunk=500, name='c30cases'):
+def run_bools(ctx, exprs, header=HEADER, chunk=900, name='c30cases'):
     chunks = []
     for i in range(0, len(exprs), chunk):
         part = exprs[i:i + chunk]
@@ -397,8 +398,8 @@ def correspondence(ctx):
 
     # statements: structured (from segments, incl. % inside expressions) and unstructured
     stmts = []
-    for _ in range(ctx.scale(160, 1500)): stmts.append(render(gen_segments(rng, True)))
-    for _ in range(ctx.scale(160, 1500)): stmts.append(rand_text(rng, rng.randint(1, 14)))
+    for _ in range(ctx.scale(90, 1500)): stmts.append(render(gen_segments(rng, True)))
+    for _ in range(ctx.scale(90, 1500)): stmts.append(rand_text(rng, rng.randint(1, 14)))
     stmts += ['', '$', 'a$', '$$', '$$$', '$$$$', '$x', '$x;', '$x ;', '$x ; ;', '$x.', '$x .y', '$x. y', '$x . 1', '$(', '$(x', '$x(', '$x[1)]', "$f(')')", "$f(''')''')", "$f('''", '$1', '$ x',
               '$é', '$xé', '$x .y', '$x %', '% $x', 'a % b', 'a %% b', '$x$y', '$x$$y', '$$x', '$x (1)', '$x\n(1)', "$d['\\\n']", '$x;;', "$f('a' 'b')", '$f((()))', '$f([)]', '$f([(])']
     seen = set(); stmts = [s for s in stmts if not (s in seen or seen.add(s))]
@@ -416,13 +417,30 @@ def correspondence(ctx):
         if len(samples) < 3 and sql.count('$') >= 2: samples.append({'sql': sql, 'pyformat': repr(m_adapt('pyformat', sql))})
 
     # (2) parse_expr on expression-like texts
-    pe_inputs = [e + t for e in EXPRS + EXPRS_PERCENT for t in ('', ' ', ',', ' ;x', '.z', ' . z', '(1)', ' [0]', ' (', 'w')] + [rand_text(rng, rng.randint(1, 10)).lstrip('$') for _ in range(ctx.scale(150, 1500))]
+    pe_inputs = [e + t for e in EXPRS + EXPRS_PERCENT for t in ('', ' ', ',', ' ;x', '.z', ' . z', '(1)', ' [0]', ' (', 'w')] + [rand_text(rng, rng.randint(1, 10)).lstrip('$') for _ in range(ctx.scale(80, 1500))]
     for s in pe_inputs:
         impl, model = R.parse_expr(s), m_parse_expr(s)
         if impl != model: disagree('parse_expr: model (mirror) and implementation differ', s, repr(impl), repr(model)); continue
         w, sp = nonascii_tables(s)
         coq = 'None' if model is None else '(Some (%s, %s))' % (cstr(model[0]), cstr(model[1]))
         add('parse_expr', 'opt_eqb (pair_eqb str_eqb str_eqb) (parse_expr %s %s %s) %s' % (w, sp, cstr(s), coq), s, repr(impl), model is not None)
+
+    # (2b) the regex semantics model (Model/C30Regex.v) with the translated patterns (Gen/C30Regex.v) against CPython's re
+    if any(is_sp(c) for c in ';.(['): disagree('CPython \\s contains one of ; . ( [', None)
+    if any(is_sp(chr(c)) and is_id_start(chr(c)) for c in range(0x3100)): disagree('CPython \\s contains an identifier start', None)
+    rx_inputs = pe_inputs[::ctx.scale(3, 1)] + [' ' + x for x in pe_inputs[::ctx.scale(7, 2)]] + ['', ' ', ';', ' ;', '.x', ' . x9(', '. 1', '(', ' [', 'a', "'a'", "'''a'b'''c", '"\\""', "'\\\n'", 'x)',
+                                                                      '"' * 3, "''''", "a'b'(", '\\', "'\\"]
+    for t in rx_inputs:
+        w, sp = nonascii_tables(t)
+        m1 = R.utils.expr1_re.match(t)
+        c1 = 'None' if m1 is None else '(Some (%d%%nat, %s))' % (m1.lastindex, cstr(t[m1.end():]))
+        add('regex_expr1_match', 'opt_eqb (pair_eqb Nat.eqb str_eqb) (re_match %s %s expr1_re %s) %s' % (w, sp, cstr(t), c1), t, repr(m1), m1 is not None)
+        m2 = R.utils.expr2_re.match(t)
+        c2 = 'None' if m2 is None else '(Some (%d%%nat, %s))' % (m2.lastindex, cstr(t[m2.end():]))
+        add('regex_expr2_match', 'opt_eqb (pair_eqb Nat.eqb str_eqb) (re_match %s %s expr2_re %s) %s' % (w, sp, cstr(t), c2), t, repr(m2), m2 is not None)
+        m3 = R.utils.expr3_re.search(t)
+        c3 = 'None' if m3 is None else '(Some (%s, %s))' % (cstr(t[m3.start():]), cstr(t[m3.end():]))
+        add('regex_expr3_search', 'opt_eqb (pair_eqb str_eqb str_eqb) (re_search %s %s expr3_re %s) %s' % (w, sp, cstr(t), c3), t, repr(m3), m3 is not None)
 
     # (3) parse_raw_sql
     for sql in stmts[::2]:
@@ -438,7 +456,7 @@ def correspondence(ctx):
         add('parse_raw', 'res_eqb (list_eqb item_eqb) (parse_raw %s %s %s) %s' % (w, sp, cstr(sql), c_items(r)), sql, repr(impl), '$' in sql)
 
     # (4) histories against one cache: every statement together with its %-doubled / un-doubled twins, in random orders
-    nh = ctx.scale(60, 600)
+    nh = ctx.scale(40, 600)
     base = [s for s in stmts if s and '\x00' not in s and len(s) < 60]
     for _ in range(nh):
         style = rng.choice(STYLES)
@@ -761,12 +779,17 @@ def replay(ctx, data):
 LEVEL_TEXT = ('Machine-checked proof (Coq 8.16.1) over an executable model of adapt_sql / parse_expr / parse_raw_sql: for every paramstyle and every well-formed '
               'segment list the adapted text is the text pieces in order with one numbered placeholder per $expression and the arguments are the expressions in '
               'order; $$ becomes $; text is %-doubled exactly so that the driver\'s %-step restores it; every placeholder is bound to the value of its own '
-              'expression; the cache is transparent for every history of requests (unconditional, after the repair bfddd57 of the cache key). Two defects are refuted by witnesses '
-              '(% inside an expression is doubled under format/pyformat; raw_sql() fragments are not %-doubled). The model is tied to /repo by correspondence '
-              'on generated statements x 5 styles x adaptation orders and by an end-to-end search on SQLite through every public entry point.')
-LEVEL_NOTE = ('Trusted: Coq kernel + vm_compute; the hand-written scanner model and its Python mirror (compared with the real regex-based code on every run, not '
-              'proved equivalent to the regular expressions); CPython\'s \\w/\\s classes; eval of the combined argument source; PEP 249 / %-formatting models '
-              'from C06. Partial: wf_segs is semantic (the scanner cuts where the author intended); only the $name class is characterised syntactically (C30_cut_name).')
+              'expression; the cache is transparent for every history of requests (unconditional, after the repair bfddd57 of the cache key); the identity of a '
+              'raw_sql() fragment in cache keys (RawSQLType.__eq__/__hash__, scanned from source) determines text and parameter types. The scanner model of '
+              'parse_expr is PROVED equal to the Python algorithm run over its three regular expressions, which are translated from CPython\'s parse trees of the '
+              'source patterns on every run, under a backtracking regex semantics that is itself compared with CPython\'s re. Two defects are refuted by witnesses '
+              '(% inside an expression is doubled under format/pyformat; raw_sql() fragments are not %-doubled). The adapt_sql model is tied to /repo by '
+              'correspondence on generated statements x 5 styles x adaptation orders and by an end-to-end search on SQLite through every public entry point, '
+              'including histories that re-run one query with raw_sql $parameters of changing Python types.')
+LEVEL_NOTE = ('Trusted: Coq kernel + vm_compute; the hand-written model of the adapt_sql loop and its Python mirror (compared with the real code on every run); the regex '
+              'semantics model (compared with CPython re on every run) and the regex translator; CPython\'s \\w/\\s classes (the theorems need only that \\s contains '
+              'none of ; . ( [ and no identifier start); eval of the combined argument source; PEP 249 / %-formatting models from C06. Partial: wf_segs still '
+              'asks that the scanner cuts each expression where the author intended; three syntactic classes are characterised (C30_cut_name, _name_semi, _call).')
 TECHNIQUE = ('Coq proof by induction over segment lists and request histories on a hand-written executable model; vm_compute correspondence (model = mirror = real '
              'function, sources captured via an injected compile); differential end-to-end search with cold and warm caches under five paramstyles')
 DESIGN_REF = 'DESIGN.md section 5, C30'
